@@ -12,13 +12,14 @@ package node
 //
 // Bounds: AveragePeriod shrunk to 4 (AverageRequired 2), heights 1..9, every rated/unrated pattern of the 9 heights
 // (split into the gap-free chains of every length, with asset B first reported at any height, and the patterns with unrated heights, asset B from height 1, 3 or 6), rates from a
-// fixed pseudo-random table.
+// fixed pseudo-random table; in the gap-free family a third asset is recorded at every height, priced 0 at no height, at any
+// single height or at any two adjacent heights (a graded block records 0 for an asset the winners did not price).
 
 import (
 	"context"
 	"crypto/sha256"
-	"os"
 	"fmt"
+	"os"
 	"reflect"
 	"strings"
 	"testing"
@@ -34,7 +35,10 @@ var confAvgN = func() int {
 	return 9
 }()
 
-func confAvgSetup(t *testing.T, d *Pegnetd, rated uint, bStart int) []uint32 {
+// zeroAt: heights (bit h-1) at which a third asset (pXAU) is recorded with rate 0, as a graded block records an asset the
+// winners did not price; 0 means the third asset is not recorded at all (the histories with unrated heights keep exactly
+// the two assets their recorded failure set was taken with)
+func confAvgSetup(t *testing.T, d *Pegnetd, rated uint, bStart int, zeroAt ...uint) []uint32 {
 	if _, err := d.Pegnet.DB.Exec(`DELETE FROM pn_rate`); err != nil {
 		t.Fatal(err)
 	}
@@ -47,6 +51,15 @@ func confAvgSetup(t *testing.T, d *Pegnetd, rated uint, bStart int) []uint32 {
 		va := uint64(1000 + 37*h*h%211)
 		if _, err := d.Pegnet.DB.Exec(`INSERT INTO pn_rate (height, token, value) VALUES (?, ?, ?)`, h, "pUSD", va); err != nil {
 			t.Fatal(err)
+		}
+		if len(zeroAt) > 0 {
+			vc := uint64(300 + 53*h%97)
+			if zeroAt[0]&(1<<uint(h-1)) != 0 {
+				vc = 0
+			}
+			if _, err := d.Pegnet.DB.Exec(`INSERT INTO pn_rate (height, token, value) VALUES (?, ?, ?)`, h, "pXAU", vc); err != nil {
+				t.Fatal(err)
+			}
 		}
 		if h >= bStart {
 			vb := uint64(500 + 91*h%173)
@@ -105,23 +118,41 @@ func confAverages(t *testing.T, gaps bool) {
 				starts = append(starts, b)
 			}
 		}
-		for _, bStart := range starts {
-			heights := confAvgSetup(t, d, rated, bStart)
-			if len(heights) < 3 {
-				continue
+		// zero-priced samples of a third asset: none, every single height, every pair of adjacent heights (gap-free family only)
+		var zeros [][]uint
+		if gaps {
+			zeros = [][]uint{nil}
+		} else {
+			zeros = [][]uint{{0}}
+			for z := 0; z < confAvgN; z++ {
+				zeros = append(zeros, []uint{1 << uint(z)})
+				if z+1 < confAvgN {
+					zeros = append(zeros, []uint{3 << uint(z)})
+				}
 			}
-			histories++
-			cont := confAvgRun(d, heights, -1)
-			for r := 1; r+1 < len(heights); r++ {
-				got := confAvgRun(d, heights, r)
-				for k := range cont {
-					if !reflect.DeepEqual(cont[k], got[k]) {
-						failures = append(failures, fmt.Sprintf("%v/%d/r%d/h%d/%s/%s", heights, bStart, heights[r], heights[k], fmtAvg(cont[k]), fmtAvg(got[k])))
-						if len(failures) > 1 {
-							continue
+		}
+		for _, bStart := range starts {
+			for _, zeroAt := range zeros {
+				if len(zeroAt) > 0 && zeroAt[0] != 0 && bStart != 1 && bStart != 4 {
+					continue // the zero-priced dimension is combined with two of the start heights of the second asset
+				}
+				heights := confAvgSetup(t, d, rated, bStart, zeroAt...)
+				if len(heights) < 3 {
+					continue
+				}
+				histories++
+				cont := confAvgRun(d, heights, -1)
+				for r := 1; r+1 < len(heights); r++ {
+					got := confAvgRun(d, heights, r)
+					for k := range cont {
+						if !reflect.DeepEqual(cont[k], got[k]) {
+							failures = append(failures, fmt.Sprintf("%v/%d/r%d/h%d/%s/%s", heights, bStart, heights[r], heights[k], fmtAvg(cont[k]), fmtAvg(got[k])))
+							if len(failures) > 1 {
+								continue
+							}
+							t.Errorf("CONF leaf=GetPegNetRateAverages clause=result_depends_only_on_recorded_rates_and_height (restart independence) rated_heights=%v assetB_from=%d third_asset_zero_at=%v: averages at height %d are %v on a node that never restarted and %v on a node restarted before the call for height %d",
+								heights, bStart, zeroAt, heights[k], fmtAvg(cont[k]), fmtAvg(got[k]), heights[r])
 						}
-						t.Errorf("CONF leaf=GetPegNetRateAverages clause=result_depends_only_on_recorded_rates_and_height (restart independence) rated_heights=%v assetB_from=%d: averages at height %d are %v on a node that never restarted and %v on a node restarted before the call for height %d",
-							heights, bStart, heights[k], fmtAvg(cont[k]), fmtAvg(got[k]), heights[r])
 					}
 				}
 			}
@@ -137,6 +168,9 @@ func confAverages(t *testing.T, gaps bool) {
 }
 
 func fmtAvg(m map[fat2.PTicker]uint64) string {
+	if v, ok := m[fat2.PTickerXAU]; ok {
+		return fmt.Sprintf("{pUSD:%d pEUR:%d pXAU:%d}", m[fat2.PTickerUSD], m[fat2.PTickerEUR], v)
+	}
 	return fmt.Sprintf("{pUSD:%d pEUR:%d}", m[fat2.PTickerUSD], m[fat2.PTickerEUR])
 }
 
